@@ -9,7 +9,7 @@
 (* what TLC explores (MC_Pool); the Impl layer is checked to satisfy the      *)
 (* rules in every reachable bounded state and is used for drift reporting.    *)
 (* Assets are indexed 1..2; amounts are Num values.                           *)
-EXTENDS CpMath, Sequences, FiniteSets, TLC
+EXTENDS CpMath, Slip, Sequences, FiniteSets, TLC
 
 CONSTANTS MINLIQ,       \* MINIMUM_LIQUIDITY_AMOUNT (1000 in the code)
           COLLECT_MIN,  \* MINIMUM_COLLECTABLE_BALANCE (1000 in the code)
@@ -96,23 +96,7 @@ SwapNext(st, u, dir, offer, o, to) ==
                 !.circ = Sub2(st.circ, ask, o.bf),
                 !.w = [w1 EXCEPT ![to] = Add2(@, ask, o.ret)]]
 
-\* C15: max spread s (decimal atomics; default 1 %, cap 50 %), optional belief price bp
-EffSpread(ms) == NMin(IF ms = "none" THEN DEC // N(100) ELSE ms, DEC // Two)
-BeliefExpected(offer, bp) == MulFloor(offer, DecInv(bp))   \* offer/p, one atomic of 1/p and one unit floored
-SpreadBound(offer, gross, spread, ms, bp) ==               \* what an accepted swap satisfied
-  LET s == EffSpread(ms) IN
-  IF bp = "none"
-  THEN (spread ** DEC) \prec ((s ++ One) ** (gross ++ spread))
-  ELSE bp = Zero \/ ((gross ++ One) ** DEC) \succeq (BeliefExpected(offer, bp) ** ((DEC -- s) -- One))
-SpreadInside(offer, gross, spread, ms, bp) ==              \* strictly inside: must not be rejected
-  LET s == EffSpread(ms) IN
-  IF bp = "none"
-  THEN /\ Zero \prec (gross ++ spread) /\ (gross ++ spread) \preceq U128MAX
-       /\ (spread ** DEC) \preceq (s ** (gross ++ spread))
-  ELSE /\ Zero \prec bp
-       /\ BeliefExpected(offer, bp) \preceq U128MAX
-       /\ \/ BeliefExpected(offer, bp) \preceq gross
-          \/ ((BeliefExpected(offer, bp) -- gross) ** DEC) \preceq (s ** BeliefExpected(offer, bp))
+\* C15: the spread rules (EffSpread, SpreadBound, SpreadInside) are in Slip.tla, shared with the three-asset pool
 \* the reported spread may not understate the loss against the pool price
 SpreadNotUnderstated(st, dir, offer, gross, spread) ==
   Monus(MulFloor(offer, FromRatio(R(st, Oth(dir)), R(st, dir))), gross) \preceq spread
